@@ -31,6 +31,16 @@ def as_view(it, v):
         v = gen_items(it, v)
     if isinstance(v, IterView):
         return v
+    from .models import SymIter
+    from .sym import SObj
+    if isinstance(v, SObj):
+        import inspect
+        import types
+        m = inspect.getattr_static(v.cls, "__iter__", None)
+        if isinstance(m, types.FunctionType):
+            v = it.call(m, (v,), {})
+    if isinstance(v, SymIter) and isinstance(v.pos, int) and v.pos == 0:
+        return v.view  # iter(seq) not yet advanced: iterating it is iterating seq
     if isinstance(v, MutList):
         v = v.val  # snapshot: python also iterates the live list, loops that mutate it while iterating are out of subset
     from .sym import SArr
